@@ -62,7 +62,12 @@ func (m *Model) Reset() (*traits.MeterReading, error) {
 	now := timestamppb.New(m.meterReading.Clock().Now())
 	return m.UpdateMeterReading(&traits.MeterReading{Usage: 0, StartTime: now, EndTime: now},
 		// force usage (which is zero) to be updated
-		resource.WithUpdatePaths("usage", "start_time", "end_time"))
+		resource.WithUpdatePaths("usage", "start_time", "end_time"),
+		// replace the timestamps: merging them field by field keeps the previous nanos when the new nanos are 0
+		resource.InterceptAfter(func(old, new proto.Message) {
+			newVal := new.(*traits.MeterReading)
+			newVal.StartTime, newVal.EndTime = now, timestamppb.New(now.AsTime())
+		}))
 }
 
 func (m *Model) PullMeterReadings(ctx context.Context, opts ...resource.ReadOption) <-chan PullMeterReadingChange {
